@@ -982,6 +982,11 @@ pub fn run_drip(
                         let avail = case.ins[i].backlog();
                         if avail >= *need {
                             find!("C09", "misdirected-wait-in", "no activity, yet waits for {need} on input {i} which already holds {avail}");
+                        } else if !case.ins[i].is_nc() && avail == case.ins[i].capacity() && *need > avail {
+                            // Full stream, nothing taken from it, more asked for
+                            // than it can ever hold: stuck for good.
+                            find!("C09", "wait-exceeds-capacity", "no activity, input {i} is full ({avail} of {avail}), yet the block waits for {need} on it: that can never be satisfied");
+                            return false;
                         } else if opts.probe_waits && case.ins[i].capacity() >= *need && src.chance(1, 4) {
                             let lack = *need - avail;
                             let left = case.ins[i].total() - case.ins[i].fed();
